@@ -5,6 +5,7 @@ goroutines inside dial; Quartet: Close vs the reader's conn.Close/reconnecting v
 import OAP.Model.Client.CloseSlice
 import OAP.Model.Client.Quartet
 import OAP.Gen.Facts
+import OAP.Model.Client.Recovery
 namespace OAP.C14
 open OAP
 
@@ -35,5 +36,26 @@ theorem close_final (acts : List CloseSlice.Act) (s : CloseSlice.St)
 re-enters the recovery from Close -/
 theorem close_safe (acts : List Quartet.Act) (s : Quartet.St) (h : Quartet.run Quartet.init acts = some s) :
     s.closerReconnects = false := (Quartet.quartet_safe acts s h).1
+
+
+/-! ### the same properties on view Recovery (the current `reconnecting` / retry loop / `dial` / `Close`, with the hit-max
+Close running inside the retry goroutine, any number of notifiers and Close callers, every MaxReconnect m) -/
+
+/-- the close callback runs at most once when user Close calls race the hit-max Close -/
+theorem recovery_on_close_at_most_once (m : Nat) (acts : List Recovery.Act) (s : Recovery.St)
+    (h : Recovery.run (Recovery.init m) acts = some s) : s.onCloseCalls ≤ 1 :=
+  Recovery.on_close_at_most_once m acts s h
+
+/-- CLOSE IS FINAL on the full recovery loop: no dial installs a connection after some Close call has returned -/
+theorem recovery_close_final (m : Nat) (acts : List Recovery.Act) (s : Recovery.St)
+    (h : Recovery.run (Recovery.init m) acts = some s) : s.dialsAfterReturn = 0 :=
+  Recovery.no_dial_after_close_returned m acts s h
+
+/-- giving up (hit-max) closes the client: signal set, close callback run exactly once -/
+theorem recovery_hitmax_closes (m : Nat) (acts : List Recovery.Act) (s : Recovery.St)
+    (h : Recovery.run (Recovery.init m) acts = some s) :
+    (∀ t, s.rc t = .fin .hitmax → s.closedSig = true ∧ s.onCloseCalls = 1) ∧
+    (0 < s.hitmaxExits → s.closedSig = true ∧ s.onCloseCalls = 1) :=
+  Recovery.hitmax_closes m acts s h
 
 end OAP.C14
